@@ -314,6 +314,9 @@ def _arith(case):
     got = fpnum_fraction(r)
     if got != exp:
         return fail('FPNum.' + op, '{}({}, {}) denotes {} expected {}'.format(op, case['a'], case['b'], got, exp), cls=[tag])
+    bad = _check_result_encoding(r, exp, '{}({}, {})'.format(op, case['a'], case['b']), tag)
+    if bad:
+        return bad
     # the operands are values: after taking part in an operation they still denote the same rational and still convert
     # back to the bit pattern they were built from
     for nm, obj, d, v in (('left', a, case['a'], va), ('right', b, case['b'], vb)):
@@ -336,6 +339,39 @@ def _arith(case):
             return fail('FPNum.operand_round_trip|' + op, 'after {}({}, {}) the {} operand converts to {:#x} instead of {:#x}'.format(
                 op, case['a'], case['b'], nm, back, bits), cls=[tag])
     return ok(nt, [tag])
+
+
+def _exact_bits(val, fmt):
+    """platform encoding of the rational val in fmt when val is exactly representable there (finite), else None"""
+    try:
+        x = float(val)
+    except OverflowError:
+        return None
+    if Fraction(x) != val:
+        return None
+    if val == 0:
+        return None              # the sign of a zero result is not fixed by the rational value
+    return float_to_bits(x, fmt)
+
+
+def _check_result_encoding(r, val, what, tag):
+    """a result that is exactly representable in a format must convert to that format's bit pattern"""
+    import io
+    import contextlib
+    for fmt in ('dp', 'sp', 'hp'):
+        exp = _exact_bits(val, fmt)
+        if exp is None:
+            continue
+        out = io.StringIO()
+        try:
+            with contextlib.redirect_stdout(out):
+                got = FPNum(r.s, r.e, r.m, r.p).convert(fmt)
+        except Exception as e:
+            return fail('FPNum.result_encoding|{}|exc:{}'.format(fmt, type(e).__name__), '{}: converting the result to {} raised {!r}'.format(what, fmt, e), cls=[tag])
+        if got != exp:
+            return fail('FPNum.result_encoding|' + fmt, '{}: the result {} converts to {:#x} in {} but its exact encoding is {:#x}'.format(
+                what, _show(val), got, fmt, exp), cls=[tag])
+    return None
 
 
 def _show(fr):
@@ -368,6 +404,9 @@ def _chain(case):
         if got != val:
             return fail('FPNum.chain|' + op, 'step {} ({}) of chain {} from {}: result denotes {} expected {}'.format(
                 k, op, case['ops'][:k + 1], case['a'], _show(got), _show(val)), cls=[tag])
+        bad = _check_result_encoding(acc, val, 'step {} of chain {} from {}'.format(k, case['ops'][:k + 1], case['a']), tag)
+        if bad:
+            return bad
         maxbits = max(maxbits, val.denominator.bit_length() + abs(val.numerator).bit_length())
         # order against the exact value of the operand
         exp = (val > vb) - (val < vb)
@@ -453,6 +492,34 @@ def _finite_desc():
                      hp.map(lambda b: ['b', b, 'hp']), dp.map(lambda b: ['b', b, 'dp']), semp)
 
 
+def _carry_out_pairs():
+    """(a, b) in one format with |a| + |b| exactly a power of two: the sum carries out of the significand, e.g. largest
+    subnormal + smallest subnormal = smallest normal"""
+    def mk(fmt, bits):
+        f = FMT[fmt]
+        mag = bits & ((1 << (f['bits'] - 1)) - 1)
+        if vclass(mag, fmt) in ('inf', 'nan') or mag == 0:
+            return None
+        va = Fraction(bits_to_float(mag, fmt))
+        p2 = Fraction(1)
+        while p2 <= va:
+            p2 *= 2
+        while p2 / 2 > va:
+            p2 /= 2
+        vb = p2 - va
+        if vb == 0:
+            vb = va
+        bb = _exact_bits(vb, fmt)
+        if bb is None:
+            return None
+        sign = bits & (1 << (f['bits'] - 1))
+        return (['b', mag | sign, fmt], ['b', bb | sign, fmt])
+    pats = st.one_of(
+        st.sampled_from(['hp', 'sp', 'dp']).flatmap(lambda fmt: st.integers(1, (1 << FMT[fmt]['mb']) - 1).map(lambda m: (fmt, m))),          # subnormals
+        st.sampled_from(['hp', 'sp', 'dp']).flatmap(lambda fmt: st.integers(0, (1 << FMT[fmt]['bits']) - 1).map(lambda b: (fmt, b))))
+    return pats.map(lambda t: mk(*t)).filter(lambda x: x is not None)
+
+
 def _arith_strategy():
     d = _finite_desc()
     def negated(a):
@@ -461,7 +528,7 @@ def _arith_strategy():
         if a[0] == 'b':
             return ['b', a[1] ^ (1 << (FMT[a[2]]['bits'] - 1)), a[2]]
         return ['semp', -a[1]] + a[2:]
-    near = d.flatmap(lambda a: st.tuples(st.just(a), st.one_of(d, st.just(a), st.just(negated(a)))))
+    near = st.one_of(d.flatmap(lambda a: st.tuples(st.just(a), st.one_of(d, st.just(a), st.just(negated(a))))), _carry_out_pairs())
     return st.tuples(near, st.sampled_from(['add', 'sub', 'mul', 'compare', 'compare', 'neg', 'abs', 'div2']),
                      st.integers(0, 40)).map(
         lambda t: {'kind': 'fpnum_arith', 'a': t[0][0], 'b': t[0][1], 'op': t[1], 'n': t[2]})
